@@ -668,12 +668,17 @@ func base32(n int) string {
 	if n == 0 {
 		return "0"
 	}
-	s := ""
-	for n > 0 {
-		s = string(digits[n%32]) + s
-		n /= 32
+	for ; ; n++ {
+		s := ""
+		for m := n; m > 0; m /= 32 {
+			s = string(digits[m%32]) + s
+		}
+		// the value is an unquoted module argument: "1u" (62) is not an SQL token, "20" and "v8" are;
+		// such sizes (shrunk programs only) are rounded up to the next one that can be written
+		if s[0] > '9' || strings.Trim(s, "0123456789") == "" {
+			return s
+		}
 	}
-	return s
 }
 
 // CreateSQL renders CREATE VIRTUAL TABLE for an s3db table bound to this client.
